@@ -17,6 +17,8 @@ import hashlib
 import json
 import os
 import re
+import subprocess
+import sys
 import threading
 import time
 from unittest import mock
@@ -211,17 +213,17 @@ def candidates(M2: bytes, M1: bytes):
 
 
 # ---------------------------------------------------------------- one exchange through all three parties
-def run_exchange(ctx, case):
-    """case: dict(kind, code, server_code, salt(hex), a, b, [B_b override hex])."""
+def impl_phase(case):
+    """Implementation + independent accessory on one exchange (Python only; called serially, in stream order, so that
+    the exchanges of a session sequence really follow each other in this process).
+    case: dict(kind, code, server_code, salt(hex), a, b, [B_b override hex])."""
     code, scode = case["code"], case["server_code"]
     salt = bytes.fromhex(case["salt"])
     a, b = case["a"], case["b"]
     acc = R.Accessory(scode.encode(), salt, b)
     B_b = bytes.fromhex(case["B_b"]) if case.get("B_b") is not None else acc.B_b
     conformant = case.get("B_b") is None and len(salt) == 16
-    # implementation, first pass (no candidate proofs yet)
-    first = impl_run(code, a, salt, B_b, [])
-    res = dict(case=case, viol=[], impl_status=first["status"])
+    first = impl_run(code, a, salt, B_b, [])          # first pass (no candidate proofs yet)
     if first["status"] == "ok":
         verdict = acc.receive(first["A_b"], first["M1"])
         M2 = verdict["M2"] if verdict["M2"] is not None else bytes(64)
@@ -230,13 +232,107 @@ def run_exchange(ctx, case):
     cands = candidates(M2, first["M1"] if first["status"] == "ok" else bytes(64))
     Ms = [c[1] for c in cands]
     impl = impl_run(code, a, salt, B_b, Ms) if first["status"] == "ok" else first
-    # model
-    exprs = [f"client_case {lit(USER.encode())} {lit(code.encode())} {lit(salt)} {a} {lit(B_b)} [{'; '.join(lit(m) for m in Ms)}]"]
+    P = dict(case=case, code=code, scode=scode, salt=salt, a=a, b=b, acc=acc, B_b=B_b, conformant=conformant,
+             impl=impl, verdict=verdict, M2=M2, cands=cands, Ms=Ms, pair_setup=None, pair_setup_error=None, want=None)
+    if conformant and impl["status"] == "ok":
+        P["want"] = R.client_values(code.encode(), salt, a, B_b)
+        try:      # byte-level use inside pair-setup (M3 items, M4 verification)
+            pub, proof, outcome = impl_pair_setup(code, a, salt, B_b, M2)
+            bad = bytearray(M2)
+            bad[-1] ^= 1
+            _p, _q, outcome_bad = impl_pair_setup(code, a, salt, B_b, bytes(bad))
+            P["pair_setup"] = (pub, proof, outcome, outcome_bad)
+        except Exception as e:  # noqa
+            P["pair_setup_error"] = f"{type(e).__name__}: {e}"
+    return P
+
+
+def oracle_failures(P):
+    """The property judged on the implementation's values by the independent accessory: list of (key, what, extra)."""
+    out = []
+    if not P["conformant"]:
+        return out
+    case, impl, verdict, code, scode, M2 = P["case"], P["impl"], P["verdict"], P["code"], P["scode"], P["M2"]
+    kind = case["kind"]
+    if impl["status"] != "ok":
+        return [("exchange:client-raised", f"SrpClient raised ({impl['status']}) on a conformant exchange kind={kind}", {})]
+    want = P["want"]
+    if impl["A_b"] != want["A_b"]:
+        out.append(("exchange:public-key-bytes", f"A_b is not PAD(g^a mod N) (len {len(impl['A_b'])}) kind={kind}",
+                    dict(expected_A_b=want["A_b"].hex())))
+    if code == scode:
+        if not verdict["ok"]:
+            out.append(("exchange:proof-rejected-by-accessory",
+                        f"conformant accessory rejects the controller's M1 computed from the right setup code (kind={kind})",
+                        dict(expected_M1=(verdict["M1_expected"] or b"").hex())))
+        if verdict["K"] is not None and impl["K"] != verdict["K"]:
+            out.append(("exchange:session-key-differs", f"session key differs from the accessory's K=H(PAD(S)) kind={kind}",
+                        dict(expected_K=verdict["K"].hex())))
+    else:
+        if verdict["ok"]:
+            out.append(("exchange:wrong-code-accepted", "accessory accepted a proof computed from a different setup code", {}))
+        # the controller's own values are still the SRP-6a values for the code that was typed
+        if impl["K"] != want["K"] or impl["M1"] != want["M1"]:
+            out.append(("exchange:client-values", f"K/M1 are not the SRP-6a values for the typed (wrong) setup code kind={kind}",
+                        dict(expected_K=want["K"].hex(), expected_M1=want["M1"].hex())))
+    for (label, m, must), got in zip(P["cands"], impl["accepts"]):      # acceptance of the accessory's proof: iff correct
+        if must is None:
+            continue
+        if code != scode and label == "correct":
+            # the accessory would not send M2; it is the correct proof for the client only if the keys agree
+            must = (impl["K"] == verdict["K"])
+        if bool(got) != must:
+            if must:
+                out.append(("exchange:correct-proof-rejected", f"client rejects the accessory's correct M2 kind={kind}", dict(M2=m.hex())))
+            else:
+                out.append(("exchange:corrupted-proof-accepted", f"client accepts a wrong accessory proof ({label}) kind={kind}",
+                            dict(M2=M2.hex(), offered=m.hex())))
+            break
+    if P["pair_setup"] is not None:
+        pub, proof, outcome, outcome_bad = P["pair_setup"]
+        if pub != want["A_b"] or (code == scode and proof != verdict["M1_expected"]):
+            out.append(("pair-setup:m3-items", "pair-setup M3 carries a public key/proof different from the conformant values",
+                        dict(m3_public_key=pub.hex(), m3_proof=proof.hex())))
+        exp_out = "continues" if impl["K"] == verdict["K"] else "auth-error"
+        if outcome != exp_out or outcome_bad != "auth-error":
+            out.append(("pair-setup:m4-verification", f"pair-setup M4 handling: correct proof -> {outcome}, corrupted -> {outcome_bad}", {}))
+    return out
+
+
+def model_exprs(P):
+    case, impl = P["case"], P["impl"]
+    exprs = [f"client_case {lit(USER.encode())} {lit(P['code'].encode())} {lit(P['salt'])} {P['a']} {lit(P['B_b'])} "
+             f"[{'; '.join(lit(m) for m in P['Ms'])}]"]
     if impl["status"] == "ok":
-        exprs.append(f"server_case {lit(USER.encode())} {lit(scode.encode())} {lit(salt)} {b} {lit(impl['A_b'])} {lit(impl['M1'])}")
-    t0 = time.time()
-    mres = model_eval(ctx, "ex_" + case["id"], exprs, big=True)
-    res["model_s"] = round(time.time() - t0, 1)
+        exprs.append(f"server_case {lit(USER.encode())} {lit(P['scode'].encode())} {lit(P['salt'])} {P['b']} {lit(impl['A_b'])} {lit(impl['M1'])}")
+    return exprs
+
+
+FRESH_BUDGET = [8]      # at most this many fresh-process re-runs per check (each ~1 s)
+
+
+def fresh_process_failures(ctx, case):
+    """Oracle failure keys of the same single exchange in a brand-new interpreter (no history), or None if that could not be run."""
+    if FRESH_BUDGET[0] <= 0:
+        return None
+    FRESH_BUDGET[0] -= 1
+    prog = ("import sys, json; sys.path.insert(0, sys.argv[1]); sys.path.insert(0, sys.argv[2]); import c02; "
+            "P = c02.impl_phase(json.loads(sys.argv[3])); print('FRESH ' + json.dumps([k for k, _w, _e in c02.oracle_failures(P)]))")
+    try:
+        p = subprocess.run([sys.executable, "-B", "-c", prog, ctx["repo"], os.path.join(ctx["verif"], "harness"), json.dumps(case)],
+                           stdout=subprocess.PIPE, stderr=subprocess.PIPE, text=True, timeout=120)
+        for line in p.stdout.splitlines():
+            if line.startswith("FRESH "):
+                return json.loads(line[6:])
+    except Exception:  # noqa
+        pass
+    return None
+
+
+def judge(ctx, P, mres, seq=None):
+    """Compare implementation, model and oracle on one exchange.  seq = (sequence name, index, history of earlier steps)."""
+    case, impl, verdict, M2 = P["case"], P["impl"], P["verdict"], P["M2"]
+    res = dict(case=case, viol=[], impl_status=impl["status"], seq=seq[0] if seq else None)
     mc = mres[0]
     if mc[0] == [1]:
         model = dict(status="ok", A_b=bytes(mc[1]), M1=bytes(mc[2]), K=bytes(mc[3]), accepts=list(mc[5]))
@@ -245,90 +341,53 @@ def run_exchange(ctx, case):
     res["impl"] = {k: (v.hex() if isinstance(v, bytes) else v) for k, v in impl.items() if k != "accepts"}
     res["model"] = {k: (v.hex() if isinstance(v, bytes) else v) for k, v in model.items() if k != "accepts"}
     payload = dict(case=case, impl=res["impl"], model=res["model"])
+    if seq:
+        payload["sequence"] = dict(name=seq[0], failing_step=seq[1], steps_so_far=seq[2] + [case])
 
     def V(key, what, found, **extra):
         res["viol"].append(violation(key, what, found, **payload, **extra))
 
     # ---- property oracle on the implementation (independent accessory)
-    prop_broken = False
-    if conformant:
-        if impl["status"] != "ok":
-            V("exchange:client-raised", f"SrpClient raised ({impl['status']}) on a conformant exchange kind={case['kind']}", True)
-            prop_broken = True
+    fails = oracle_failures(P)
+    prop_broken = bool(fails)
+    if fails:
+        # does the very same exchange pass in an interpreter without history?  then earlier sessions leaked into this one
+        fresh = fresh_process_failures(ctx, case)
+        if fresh is not None and not fresh:
+            hist = (f"step {seq[1]} of session sequence '{seq[0]}'" if seq else "an exchange run after other exchanges in this process")
+            V("sequence:state-leak", f"{hist}: the controller's values depend on earlier SrpClient sessions in the same process "
+              f"(the same exchange alone in a fresh interpreter is conformant); here: " + "; ".join(w for _k, w, _e in fails)[:400], True,
+              failures=[k for k, _w, _e in fails], fresh_process_failures=fresh,
+              expected_K=(P["want"] or {}).get("K", b"").hex(), expected_M1=(P["want"] or {}).get("M1", b"").hex())
         else:
-            want = R.client_values(code.encode(), salt, a, B_b)
-            if impl["A_b"] != want["A_b"]:
-                V("exchange:public-key-bytes", f"A_b is not PAD(g^a mod N) (len {len(impl['A_b'])}) kind={case['kind']}", True,
-                  expected_A_b=want["A_b"].hex())
-                prop_broken = True
-            if code == scode:
-                if not verdict["ok"]:
-                    V("exchange:proof-rejected-by-accessory",
-                      f"conformant accessory rejects the controller's M1 (kind={case['kind']}: leading-zero class)", True,
-                      expected_M1=(verdict["M1_expected"] or b"").hex())
-                    prop_broken = True
-                if verdict["K"] is not None and impl["K"] != verdict["K"]:
-                    V("exchange:session-key-differs", f"session key differs from the accessory's K=H(PAD(S)) kind={case['kind']}", True,
-                      expected_K=verdict["K"].hex())
-                    prop_broken = True
-            else:
-                if verdict["ok"]:
-                    V("exchange:wrong-code-accepted", "accessory accepted a proof computed from a different setup code", True)
-                    prop_broken = True
-            # acceptance of the accessory's proof: iff correct
-            for (label, m, must), got in zip(cands, impl["accepts"]):
-                if must is None:
-                    continue
-                if code != scode and label == "correct":
-                    # the accessory would not send M2; whatever it is, it is the correct proof for the *client's* K only
-                    # if keys agree, which they do not: the client must reject it
-                    must = (impl["K"] == verdict["K"])
-                if bool(got) != must:
-                    if must:
-                        V("exchange:correct-proof-rejected", f"client rejects the accessory's correct M2 kind={case['kind']}", True,
-                          M2=m.hex())
-                    else:
-                        V("exchange:corrupted-proof-accepted", f"client accepts a wrong accessory proof ({label}) kind={case['kind']}", True,
-                          M2=M2.hex(), offered=m.hex())
-                    prop_broken = True
-                    break
-            # byte-level use inside pair-setup (M3 items, M4 verification)
-            try:
-                pub, proof, outcome = impl_pair_setup(code, a, salt, B_b, M2)
-                bad = bytearray(M2)
-                bad[-1] ^= 1
-                _p, _q, outcome_bad = impl_pair_setup(code, a, salt, B_b, bytes(bad))
-                res["pair_setup"] = [outcome, outcome_bad]
-                if pub != want["A_b"] or (code == scode and proof != verdict["M1_expected"]):
-                    V("pair-setup:m3-items", "pair-setup M3 carries a public key/proof different from the conformant values", True,
-                      m3_public_key=pub.hex(), m3_proof=proof.hex())
-                    prop_broken = True
-                exp_out = "continues" if impl["K"] == verdict["K"] else "auth-error"
-                if outcome != exp_out or outcome_bad != "auth-error":
-                    V("pair-setup:m4-verification", f"pair-setup M4 handling: correct proof -> {outcome}, corrupted -> {outcome_bad}", True)
-                    prop_broken = True
-            except Exception as e:  # noqa
-                V("pair-setup:harness", f"could not drive perform_pair_setup_part2: {type(e).__name__}: {e}", False)
-    # ---- correspondence model <-> implementation
+            for key, what, extra in fails:
+                V(key, what + (f" [sequence {seq[0]} step {seq[1]}]" if seq else ""), True, **extra)
+    if P["pair_setup_error"]:
+        V("pair-setup:harness", f"could not drive perform_pair_setup_part2: {P['pair_setup_error']}", False)
+    if P["pair_setup"] is not None:
+        res["pair_setup"] = [P["pair_setup"][2], P["pair_setup"][3]]
+    # ---- correspondence model <-> implementation (the model is history-free)
     same = (impl["status"] == model["status"] and impl["A_b"] == model["A_b"] and impl["M1"] == model["M1"]
             and impl["K"] == model["K"] and impl["accepts"] == model["accepts"])
     if not same and not prop_broken:
         diff = [k for k in ("status", "A_b", "M1", "K", "accepts") if impl[k] != model[k]]
-        V("exchange:model-mismatch", f"implementation and Model/Srp.v differ on {diff} (kind={case['kind']}); the independent accessory "
+        V("exchange:model-mismatch" if not seq else "sequence:model-mismatch",
+          f"implementation and Model/Srp.v differ on {diff} (kind={case['kind']}); the independent accessory "
           "found no property failure on this input", False, broken="correspondence Model/Srp.v <-> aiohomekit/crypto/srp.py")
     # ---- the model's specification accessory vs the Python reference accessory
     if impl["status"] == "ok" and len(mres) > 1 and len(impl["A_b"]) <= 384 and verdict["K"] is not None:
         ms = mres[1]
         mine = [bytes(ms[0]), bytes(ms[1]), bytes(ms[2]), ms[3][0], bytes(ms[4])]
-        ref = [acc.B_b, verdict["K"], verdict["M1_expected"], 1 if verdict["ok"] else 0, verdict["M2"]]
+        ref = [P["acc"].B_b, verdict["K"], verdict["M1_expected"], 1 if verdict["ok"] else 0, verdict["M2"]]
         if mine != ref:
             idx = [i for i in range(5) if mine[i] != ref[i]]
             V("spec-accessory:model-vs-reference", f"Model/Srp.v server_x and harness/ref/srp_ref.py disagree on fields {idx} "
               "(B_b,K,M1,ok,M2)", False)
-    if conformant and code == scode and impl["status"] == "ok":
-        res["alt_convention_differs"] = (R.skip_zero_variant_accepts(scode.encode(), salt, b, impl["A_b"], impl["M1"]) != verdict["ok"])
-    res["flags"] = dict(A0=impl["A_b"][:1] == b"\x00", B0=B_b[:1] == b"\x00", K0=impl["K"][:1] == b"\x00",
-                        M1_0=impl["M1"][:1] == b"\x00", M2_0=M2[:1] == b"\x00", salt0=salt[:1] == b"\x00")
+    if P["conformant"] and P["code"] == P["scode"] and impl["status"] == "ok":
+        res["alt_convention_differs"] = (R.skip_zero_variant_accepts(P["scode"].encode(), P["salt"], P["b"], impl["A_b"], impl["M1"])
+                                         != verdict["ok"])
+    res["flags"] = dict(A0=impl["A_b"][:1] == b"\x00", B0=P["B_b"][:1] == b"\x00", K0=impl["K"][:1] == b"\x00",
+                        M1_0=impl["M1"][:1] == b"\x00", M2_0=M2[:1] == b"\x00", salt0=P["salt"][:1] == b"\x00")
     return res
 
 
@@ -385,6 +444,75 @@ def gen_exchanges(tier, seed):
     return cases
 
 
+def wrong_of(code: str) -> str:
+    """A mistyped setup code: one digit changed."""
+    for i, ch in enumerate(code):
+        if ch.isdigit():
+            return code[:i] + str((int(ch) + 1) % 10) + code[i + 1:]
+    return code + "x"
+
+
+def gen_sequences(tier, seed, cases):
+    """Session sequences: several SrpClient exchanges one after the other in this process, sharing the salt (an accessory
+    keeps its provisioned salt), the setup code, the ephemeral, or everything.  The model is history-free, so every step
+    is judged exactly like a single exchange.  Quick reuses exchanges of the directed stream wherever the inputs repeat
+    (their model evaluation is shared); only three steps need a new evaluation."""
+    r = rng(seed, "c02seq")
+    by = {c["id"]: c for c in cases}
+
+    def step(sid, kind, code, scode, salt_hex, a=None, b=None):
+        return dict(id=sid, kind=kind, code=code, server_code=scode, salt=salt_hex,
+                    a=rand128(r) if a is None else a, b=rand128(r) if b is None else b, hit=True)
+
+    def fresh_salt():
+        return bytes(r.getrandbits(8) for _ in range(16)).hex()
+    seqs = []
+    w0, c0, c5 = by.get("w0"), by.get("0"), by.get("5")
+    right = None
+    if w0 and c0:
+        # mistyped code, then the right one: same salt, new b; the ephemeral of exchange 0 is used again
+        right = step("sA1", "seq:right-after-wrong", w0["server_code"], w0["server_code"], w0["salt"], a=c0["a"])
+        seqs.append(dict(name="wrong-then-right", steps=[w0, right]))
+    if c5:
+        wrong = step("sB1", "seq:wrong-after-right", wrong_of(c5["code"]), c5["code"], c5["salt"])
+        again = step("sB2", "seq:right-after-wrong", c5["code"], c5["code"], c5["salt"], a=c5["a"])
+        seqs.append(dict(name="right-wrong-right", steps=[c5, wrong, again]))
+    if c0:
+        seqs.append(dict(name="identical-repeat-then-same-code-other-salt", steps=[c0, c0] + ([right] if right else [])))
+    if tier != "quick":
+        codes = ["123-45-678", "031-45-154", "518-08-582"]
+        for n in range(3):
+            code, salt = codes[n], fresh_salt()
+            seqs.append(dict(name=f"wrong-then-right-{n}", steps=[
+                step(f"sC{n}a", "seq:wrong-first", wrong_of(code), code, salt),
+                step(f"sC{n}b", "seq:right-after-wrong", code, code, salt)]))
+        for n in range(2):
+            code, salt = codes[n], fresh_salt()
+            a = rand128(r)
+            seqs.append(dict(name=f"right-wrong-right-{n}", steps=[
+                step(f"sD{n}a", "seq:right-first", code, code, salt, a=a),
+                step(f"sD{n}b", "seq:wrong-after-right", wrong_of(code), code, salt),
+                step(f"sD{n}c", "seq:right-after-wrong", code, code, salt, a=a)]))
+        code, salt = "777-66-555", fresh_salt()
+        last = step("sE3", "seq:right-after-two-wrong", code, code, salt)
+        seqs.append(dict(name="wrong-wrong-right-right", steps=[
+            step("sE1", "seq:wrong-first", wrong_of(code), code, salt), step("sE2", "seq:wrong-second", "000-00-000", code, salt),
+            last, last]))
+        code = "246-80-135"
+        seqs.append(dict(name="same-code-three-salts", steps=[step(f"sF{n}", "seq:same-code-other-salt", code, code, fresh_salt())
+                                                              for n in range(3)]))
+        a, b = rand128(r), rand128(r)
+        seqs.append(dict(name="same-ephemerals-other-code-and-salt", steps=[
+            step(f"sG{n}", "seq:same-ephemerals", codes[n], codes[n], fresh_salt(), a=a, b=b) for n in range(3)]))
+        # more salts than any small cache would hold, then back to the first accessory with a different code
+        code, salt = "135-79-246", fresh_salt()
+        steps = [step("sH0", "seq:right-first", code, code, salt)]
+        steps += [step(f"sH{n}", "seq:other-accessory", codes[n % 3], codes[n % 3], fresh_salt()) for n in range(1, 10)]
+        steps += [step("sH10", "seq:wrong-after-many", wrong_of(code), code, salt), step("sH11", "seq:right-after-many", code, code, salt)]
+        seqs.append(dict(name="many-accessories-then-back", steps=steps))
+    return seqs
+
+
 def gen_sha(tier, seed):
     r = rng(seed, "c02sha")
     lens = list(range(0, 300)) + [367, 368, 383, 384, 385, 399, 400, 511, 512, 768, 832, 976, 1023, 1024]
@@ -413,8 +541,9 @@ def impl_digest(m: bytes, cut: int):
 # ---------------------------------------------------------------- run
 def run(ctx):
     tier, seed = ctx["tier"], ctx["seed"]
-    workers = int(os.environ.get("VERIF_C02_WORKERS", "8" if tier == "quick" else "12"))
+    workers = int(os.environ.get("VERIF_C02_WORKERS", "10" if tier == "quick" else "12"))
     cov = Coverage("exchange: distinct (code, server code, salt, a, b, B_b) for which all three parties produced a result; "
+                   "sequence: every step of every session sequence (a step is a distinct history); "
                    "sha512: distinct message; to_byte_array/pad_left: distinct argument tuple")
     viols = []
     import aiohomekit.crypto.srp as srp
@@ -433,16 +562,38 @@ def run(ctx):
         for ln in sorted({0, 1, 15, 16, 17, 64, 383, 384, 385, dl, max(dl - 1, 0), dl + 1}):
             data = bytes((r.getrandbits(8) if j else r.choice([0, 0, 1, 255])) for j in range(dl))
             pl_cases.append((data, ln))
+    seqs = None
     if ctx.get("replay"):
         rp = json.load(open(ctx["replay"]))
-        cases = [rp["case"]] if isinstance(rp.get("case"), dict) and "salt" in rp["case"] else gen_exchanges(tier, seed)
+        if isinstance(rp.get("sequence"), dict) and rp["sequence"].get("steps_so_far"):
+            cases, seqs = [], [dict(name=rp["sequence"].get("name", "replay"), steps=rp["sequence"]["steps_so_far"])]
+        elif isinstance(rp.get("case"), dict) and "salt" in rp["case"]:
+            cases, seqs = [rp["case"]], []
+        else:
+            cases = gen_exchanges(tier, seed)
     else:
         cases = gen_exchanges(tier, seed)
+    if seqs is None:
+        seqs = gen_sequences(tier, seed, cases)
     t_gen = time.time()
 
-    # ---- all model evaluations (and, for exchanges, the implementation and oracle runs) on one pool;
-    #      the long jobs (exchanges) are queued first
-    jobs = [(lambda c=c: run_exchange(ctx, c)) for c in cases]
+    # ---- implementation + independent accessory, serially and in stream order (one process: the sequences are real histories)
+    FRESH_BUDGET[0] = 8
+    plain_P = [impl_phase(c) for c in cases]
+    seq_P = [[impl_phase(st) for st in sq["steps"]] for sq in seqs]
+    all_P = plain_P + [P for l in seq_P for P in l]
+    job_of, exprs_list = {}, []
+    for P in all_P:                       # one model evaluation per distinct input (the model has no history)
+        e = model_exprs(P)
+        key = "\n".join(e)
+        if key not in job_of:
+            job_of[key] = len(exprs_list)
+            exprs_list.append(e)
+        P["job"] = job_of[key]
+    t_impl = time.time()
+
+    # ---- all model evaluations on one pool; the long jobs (exchanges) are queued first
+    jobs = [(lambda n=n, e=e: model_eval(ctx, f"ex_{n}", e, big=True)) for n, e in enumerate(exprs_list)]
     jobs += [(lambda i=i, part=part: model_eval(ctx, f"sha_{i}", ["map sha_case [" + "; ".join(lit(m) for m in part) + "]"])[0])
              for i, part in enumerate(sha_parts)]
     jobs.append(lambda: model_eval(ctx, "tba", ["map (fun p => to_byte_array_case (fst p) (snd p)) ["
@@ -451,10 +602,26 @@ def run(ctx):
                                                     + "; ".join(f"({lit(d)}, {ln})" for d, ln in pl_cases) + "]"])[0])
     jobs.append(lambda: model_eval(ctx, "consts", ["constants_case"])[0])
     out = pool_map(lambda f: f(), jobs, workers)
-    results = out[:len(cases)]
-    sha_model = [d for part in out[len(cases):len(cases) + len(sha_parts)] for d in part]
+    ex_out = out[:len(exprs_list)]
+    sha_model = [d for part in out[len(exprs_list):len(exprs_list) + len(sha_parts)] for d in part]
     tba_model, pl_model, mc = out[-3], out[-2], out[-1]
     t_model = time.time()
+    results = [judge(ctx, P, ex_out[P["job"]]) for P in plain_P]
+    seq_results = [judge(ctx, P, ex_out[P["job"]], seq=(sq["name"], k, sq["steps"][:k]))
+                   for sq, l in zip(seqs, seq_P) for k, P in enumerate(l)]
+
+    # ---- session sequences
+    for res in seq_results:
+        viols += res["viol"]
+        c = res["case"]
+        cov.case("seq" + json.dumps([res["seq"], c["id"], c["code"], c["server_code"], c["salt"], c["a"], c["b"]]) + str(id(res)), True,
+                 stream="sequence", sequence=res["seq"], sequence_step_kind=c["kind"], sequence_impl=res["impl_status"],
+                 sample=dict(stream="sequence", sequence=res["seq"], kind=c["kind"], code=c["code"], server_code=c["server_code"],
+                             salt=c["salt"], K=res["impl"]["K"][:24] + "...", pair_setup=res.get("pair_setup"))
+                 if len(cov.samples) < 3 else None)
+    cov.extra["sequences"] = {sq["name"]: [f"{st['kind']}:{st['code']}@{st['salt'][:8]}" for st in sq["steps"]] for sq in seqs}
+    cov.extra["sequence_steps"] = len(seq_results)
+    cov.extra["model_evaluations_shared"] = len(all_P) - len(exprs_list)
 
     # ---- exchanges (first, so that their samples are kept)
     flags = dict(A0=0, B0=0, K0=0, M1_0=0, M2_0=0, salt0=0)
@@ -470,7 +637,7 @@ def run(ctx):
                  directed_hit=c["hit"],
                  sample=dict(stream="exchange", kind=c["kind"], code=c["code"], salt=c["salt"], a=str(c["a"]), b=str(c["b"]),
                              A_b=res["impl"]["A_b"][:24] + "...", K=res["impl"]["K"][:24] + "...", pair_setup=res.get("pair_setup"),
-                             model_seconds=res.get("model_s")) if len(cov.samples) < 7 else None)
+                             ) if len(cov.samples) < 9 else None)
 
     # ---- constants, read from the implementation at run time
     model_consts = dict(N=int.from_bytes(bytes(mc[0]), "big"), g=int.from_bytes(bytes(mc[1]), "big"),
@@ -567,8 +734,9 @@ def run(ctx):
     cov.extra["domain"] = ("user name 'Pair-Setup', setup codes as UTF-8 strings, 16-byte salts (any content), a, b < 2^128, B_b = the "
                            "accessory's 384-byte public key; salts of other lengths and foreign B_b only in the model-vs-implementation "
                            "stream (the property does not constrain them)")
-    cov.extra["timing_s"] = dict(generation_and_directed_search=round(t_gen - t_start, 1), model_impl_oracle_runs=round(t_model - t_gen, 1),
-                                 comparison=round(time.time() - t_model, 1), workers=workers)
+    cov.extra["timing_s"] = dict(generation_and_directed_search=round(t_gen - t_start, 1), implementation_and_oracle_serial=round(t_impl - t_gen, 1),
+                                 model_runs=round(t_model - t_impl, 1), comparison=round(time.time() - t_model, 1), workers=workers,
+                                 exchange_model_jobs=len(exprs_list))
     cov.extra["trusted_base_extra"] = [
         "C02: model evaluated by vm_compute (coqc on generated files), modexp on Bignums.BigN/primitive Uint63 proved equal to the Z model "
         "(srp_big_refines_*; Uint63 axioms of the standard library listed in coq/axioms.d/C02.json)",
